@@ -834,6 +834,29 @@ def r_oneshot(prog, tier):
                     else:
                         continue
                     break
+    # a one-shot iterator bound at module level and run through inside a function: the first call uses it up
+    for mod in MODULES:
+        if mod not in prog.modules:
+            continue
+        m = prog.modules[mod]
+        for nm, v in m.consts.items():
+            one = isinstance(v, ast.GeneratorExp) or (isinstance(v, ast.Call) and unparse(v.func) in _ONESHOT_MAKERS)
+            if not one:
+                continue
+            for f in sorted(m.funcs.values(), key=lambda x: x.fq):
+                if nm in f.locals:
+                    continue
+                for x in walk_own(f.node):
+                    it = None
+                    if isinstance(x, (ast.For, ast.comprehension)) and isinstance(x.iter, ast.Name) and x.iter.id == nm:
+                        it = x
+                    if it is not None:
+                        n += 1
+                        obs.append(Ob('R-ONESHOT', f.fq, 'a one-shot iterator is run through once: `%s`' % nm, False,
+                                      '`%s = %s` is made once, when the module is loaded; the loop over it in %s uses it up the first '
+                                      'time it runs - every later run (the next node, the next call) finds it empty'
+                                      % (nm, unparse(v)[:40], f.fq), construct='oneshot-module:%s' % nm,
+                                      line=getattr(x, 'lineno', getattr(x.iter, 'lineno', 0))))
     obs.append(Ob('R-ONESHOT', 'package', 'scan for one-shot iterators consumed twice covered every function', True,
                   '%d found' % n, construct='oneshot-scan', nontrivial=False))
     return obs, {}
@@ -1180,6 +1203,41 @@ def r_counterstr(prog, tier):
     return obs, {}
 
 
+# ------------------------------------------------------------------------------------ R-MAXSTEP
+
+def r_maxstep(prog, tier):
+    """`if v > m: m += 1`: a running maximum that climbs by one step instead of taking the new value."""
+    obs = []
+    n = 0
+    for mod in MODULES:
+        if mod not in prog.modules:
+            continue
+        for f in sorted(prog.modules[mod].funcs.values(), key=lambda x: x.fq):
+            for x in walk_own(f.node):
+                if not (isinstance(x, ast.If) and not x.orelse and len(x.body) == 1 and isinstance(x.body[0], ast.AugAssign)
+                        and isinstance(x.body[0].op, ast.Add) and isinstance(x.body[0].target, ast.Name)
+                        and isinstance(x.body[0].value, ast.Constant) and isinstance(x.body[0].value.value, int)):
+                    continue
+                mname = x.body[0].target.id
+                t = norm_test(x.test, True)
+                import re as _re
+                if t[0] == 'cmp' and t[2] == '<' and t[1] == mname and mname not in _re.findall(r'[A-Za-z_][A-Za-z0-9_]*', t[3]) \
+                        and not t[3].lstrip('-').isdigit():
+                    # m < v: and v is not itself a counter stepped alongside
+                    vdefs = [d for (_, d) in name_defs(f, t[3])] if t[3].isidentifier() else []
+                    if any(isinstance(d, tuple) and d and d[0] == 'aug' for d in vdefs):
+                        continue
+                    n += 1
+                    obs.append(Ob('R-MAXSTEP', f.fq, 'a running maximum takes the larger value: `%s`' % unparse(x.test), False,
+                                  '`%s` under `%s` raises `%s` by %d instead of setting it to `%s`: after a jump of two or more it '
+                                  'stays below the largest value seen' % (unparse(x.body[0]), unparse(x.test), mname,
+                                                                          x.body[0].value.value, t[3]),
+                                  construct='maxstep:%s' % mname, line=x.lineno))
+    obs.append(Ob('R-MAXSTEP', 'package', 'scan for running maxima raised by one step covered every function', True,
+                  '%d found' % n, construct='maxstep-scan', nontrivial=False))
+    return obs, {}
+
+
 def r_leakvar(prog, tier):
     """Inside an outer loop, the variable of a finished inner `for` loop is read after that loop and is bound nowhere
     else: it holds the leftover of the last inner iteration - or, when the inner loop did not run for this outer
@@ -1210,6 +1268,18 @@ def r_leakvar(prog, tier):
                 if not outer:
                     continue
                 tnames = set(x.id for x in ast.walk(L.target) if isinstance(x, ast.Name))
+                # a loop that is left with `break` hands its variable on on purpose (the element found, the count reached)
+                def _own_breaks(node_, top=True):
+                    for ch_ in ast.iter_child_nodes(node_):
+                        if isinstance(ch_, ast.Break):
+                            return True
+                        if isinstance(ch_, (ast.For, ast.While, ast.FunctionDef, ast.Lambda)):
+                            continue
+                        if _own_breaks(ch_, False):
+                            return True
+                    return False
+                if any(_own_breaks(st_) or isinstance(st_, ast.Break) for st_ in L.body):
+                    continue
                 for t in sorted(tnames):
                     if t in f.params:
                         continue
@@ -1329,6 +1399,11 @@ def fx(tree, **params):
         tree.data['pos'] = labels.index(lb)
     tagc = Counter()
     tagc.update(tree.data['label'])
+    deepest = 0
+    for c in tree.children:
+        depth = len(c.children)
+        if depth > deepest:
+            deepest += 1
     live = filter(None, tree.children)
     for c in live:
         c.data['a'] = 1
@@ -1388,3 +1463,4 @@ r_wrongcheck = _with_fixture('R-WRONGCHECK', r_wrongcheck)
 r_stalesnap = _with_fixture('R-STALESNAP', r_stalesnap)
 r_indexbyvalue = _with_fixture('R-INDEXBYVALUE', r_indexbyvalue)
 r_counterstr = _with_fixture('R-COUNTERSTR', r_counterstr)
+r_maxstep = _with_fixture('R-MAXSTEP', r_maxstep)
